@@ -79,9 +79,9 @@ func decodeAlphabet(ctx *core.Ctx) []decodeCase {
 	}
 	// (c) one-byte deviation balls
 	var bases [][]byte
-	pts := alpha.Points(ctx.Quick())
+	pts := alpha.Points(smoke(ctx))
 	for i, np := range pts {
-		if ctx.Quick() && i%3 != 0 {
+		if smoke(ctx) && i%3 != 0 {
 			continue
 		}
 		e := ref.Encode(np.P)
@@ -195,6 +195,20 @@ var subC13Export = core.NewSub("C13/export", func(w *core.Worker, c ptEncCase) *
 	if err != nil || q.Equal(p) != 1 || !bytes.Equal(q.Bytes(), c.P.Enc) {
 		return core.Failf("re-import of exported coordinates failed for %s via %s", c.P.Enc, c.Via)
 	}
+	// the exported quadruple describes the point as it was when exported:
+	// later use of the source as a receiver must not change it
+	p.Add(p, edwards25519.NewGeneratorPoint())
+	p.MultByCofactor(p)
+	q2, err := new(edwards25519.Point).SetExtendedCoordinates(X, Y, Z, T)
+	if err != nil || !bytes.Equal(q2.Bytes(), c.P.Enc) {
+		return core.Failf("coordinates exported from %s (via %s) no longer describe it after the source point was reused as a receiver", c.P.Enc, c.Via)
+	}
+	// and writing to the exported elements must not change an imported point
+	X.Add(X, X)
+	Y.Zero()
+	if !bytes.Equal(q2.Bytes(), c.P.Enc) {
+		return core.Failf("a point imported from coordinates changes when those coordinates are written afterwards")
+	}
 	w.Distinct("nontrivial:points", c.P.Enc)
 	return nil
 })
@@ -254,7 +268,7 @@ func runC13(ctx *core.Ctx) {
 	ctx.Extra("zero_forms", len(zeroForms))
 	var cases []quadCase
 	devVals := alpha.FieldValues(true)
-	for _, np := range alpha.Points(ctx.Quick()) {
+	for _, np := range alpha.Points(smoke(ctx)) {
 		for li, lam := range alpha.Lambdas() {
 			co := alpha.PointCoords(np.P, lam)
 			var base [4]elemIn
@@ -292,7 +306,7 @@ func runC13(ctx *core.Ctx) {
 		}
 	}
 	subC13.RunList(ctx, cases)
-	all := pointIns(ctx.Quick(), []int{0, 1, 2, 3, 4, 5, 6, 7})
+	all := pointIns(smoke(ctx), []int{0, 1, 2, 3, 4, 5, 6, 7})
 	nv := len(viaForms)
 	subC13Export.Run(ctx, len(all)*nv, func(i int) ptEncCase { return ptEncCase{all[i/nv], viaForms[i%nv]} })
 	ctx.Extra("z_zero_quadruples_seen", ctx.DistinctCount("z-zero") > 0)
@@ -320,6 +334,12 @@ var subC17 = core.NewSub("C17/montgomery", func(w *core.Worker, c ptEncCase) *co
 	neg := new(edwards25519.Point).Negate(p)
 	if !bytes.Equal(neg.BytesMontgomery(), got) {
 		return core.Failf("BytesMontgomery(P) != BytesMontgomery(-P)")
+	}
+	// a result already handed out must survive later calls on other points
+	edwards25519.NewGeneratorPoint().BytesMontgomery()
+	alpha.MakePoint(ref.Torsion()[1], 3).BytesMontgomery()
+	if !bytes.Equal(got, want[:]) {
+		return core.Failf("the slice returned by BytesMontgomery(%s) changed to %x after later BytesMontgomery calls", c.P.Enc, got)
 	}
 	w.Distinct("nontrivial:u", got)
 	return nil
@@ -357,7 +377,7 @@ func init() { register("C17", "exploration", runC17) }
 func runC17(ctx *core.Ctx) {
 	ctx.Rule("every point of alphabet P (incl. identity, (0,-1) and all of E[8]) in 8 injected and 11 operation-produced representations -> u=(1+y)/(1-y) with 1/0=0, canonical LE, equal for P and -P; X25519 cross-check against crypto/ecdh for a structured key alphabet (one-byte balls of bytes 0 and 31, scalar alphabet encodings). distinct_nontrivial = distinct u outputs")
 	ctx.Assume("math/big is correct", "crypto/ecdh X25519 is an independent correct implementation")
-	all := pointIns(ctx.Quick(), []int{0, 1, 2, 3, 4, 5, 6, 7})
+	all := pointIns(smoke(ctx), []int{0, 1, 2, 3, 4, 5, 6, 7})
 	nv := len(viaForms)
 	subC17.Run(ctx, len(all)*nv, func(i int) ptEncCase { return ptEncCase{all[i/nv], viaForms[i%nv]} })
 	var ks []x25519Case
@@ -373,7 +393,7 @@ func runC17(ctx *core.Ctx) {
 		}
 	}
 	for i, s := range alpha.Scalars(true) {
-		if ctx.Quick() && i%4 != 0 {
+		if smoke(ctx) && i%4 != 0 {
 			continue
 		}
 		ks = append(ks, x25519Case{le32(s)})
